@@ -900,7 +900,7 @@ pub fn t_extern(a: &[i64]) -> Val {
 //   enum En: <base>;  type O { f0: <I by value | [I; co] | *const I>, e: En, tail: unknown<pad> } with optional address on
 //   `e` and optional size/align.
 // a = [ps, ext_size, ext_align, ci, i_has_size, i_size, i_has_align, i_align, i_packed,
-//      o_kind(0 value, 1 pointer, 3 array), co, e_base(0..7), e_has_addr, e_addr, pad, o_has_size, o_size, o_has_align, o_align]
+//      o_kind(0 value, 1 pointer, 3 array), co, e_base(0..7), e_has_addr, e_addr, pad, o_has_size, o_size, o_has_align, o_align, e_first]
 pub fn t_nest(a: &[i64]) -> Val {
     let ps = a[0] as usize;
     let mut i_attrs: Vec<A> = vec![];
@@ -944,11 +944,12 @@ pub fn t_nest(a: &[i64]) -> Val {
     }
     let outer = ID::new(
         (V::Public, "O"),
-        TD::new([
-            TS::field((V::Public, "f0"), f0_ty),
-            e_st,
-            TS::field((V::Public, "_"), T::unknown(a[14] as usize)),
-        ])
+        // a[19]: `e` comes before `f0` (so that a zero-sized or over-aligned f0 can land on a misaligned offset)
+        TD::new(if a[19] != 0 {
+            vec![e_st, TS::field((V::Public, "f0"), f0_ty), TS::field((V::Public, "_"), T::unknown(a[14] as usize))]
+        } else {
+            vec![TS::field((V::Public, "f0"), f0_ty), e_st, TS::field((V::Public, "_"), T::unknown(a[14] as usize))]
+        })
         .with_attributes(o_attrs),
     );
     // O is declared before I on purpose: resolution order must not matter
